@@ -350,6 +350,9 @@ func (n *Node) newDBFT() {
 		opts = append(opts,
 			dbft.WithMaxTimePerBlock[vt.H](func() time.Duration { _, m := n.BlockTimes(); return m }),
 			dbft.WithSubscribeForTxs[vt.H](func() {
+				if w.SubHook != nil {
+					w.SubHook(n)
+				}
 				n.Subscribed = true
 				n.ev(EvSubscribe, nil, "")
 				for _, m := range w.Mons {
@@ -409,6 +412,17 @@ func (n *Node) cbGetVerified() []dbft.Transaction[vt.H] {
 		}
 	}
 	return out
+}
+
+// cbGetVerifiedQuiet: how many transactions GetVerified would hand out now (no event, no hooks).
+func (n *Node) cbGetVerifiedQuiet() int {
+	c := 0
+	for _, tx := range n.PoolOrder {
+		if !tx.Poisoned() {
+			c++
+		}
+	}
+	return c
 }
 
 func (n *Node) cbBroadcast(p dbft.ConsensusPayload[vt.H]) {
